@@ -54,8 +54,49 @@ def run(chk: Check, proj: Project) -> None:
     from . import C03
     from .common import world
 
+    s11(chk, proj)
     chk.borrow("S10", "the render_context layer pushed for a component render is popped on every normal path of THAT call (not later from a callback): a layer left on the parent's RenderContext makes an enclosing {% include %} pop the wrong one and later {% block %}s lose their BlockContext (shared with C03-S3)",
                lambda sub: C03.s3(sub, proj, world(proj)))
+
+
+def s11(chk: Check, proj: Project) -> None:
+    chk.rule("S11", "the library's tags stay transparent to Django's tree walks: every in-package Node class that keeps its body in `self.nodelist` advertises it through `child_nodelists` (Node.get_nodes_by_type is how ExtendsNode finds the {% block %} tags of a parent template, also inside component / fill / slot / provide bodies)")
+    import importlib.util
+    spec = importlib.util.find_spec("django.template.base")
+    if spec is None or not spec.origin:
+        raise AnalysisError("django.template.base not found")
+    dj = ast.parse(open(spec.origin).read())
+    node_cls = next((c for c in dj.body if isinstance(c, ast.ClassDef) and c.name == "Node"), None)
+    default = None
+    walker_uses = False
+    if node_cls is not None:
+        for st in node_cls.body:
+            if isinstance(st, ast.Assign) and norm(st.targets[0]) == "child_nodelists":
+                default = [e.value for e in st.value.elts if isinstance(e, ast.Constant)] if isinstance(st.value, (ast.Tuple, ast.List)) else None
+            if isinstance(st, ast.FunctionDef) and st.name == "get_nodes_by_type":
+                walker_uses = any(isinstance(x, ast.Attribute) and x.attr == "child_nodelists" for x in ast.walk(st))
+    if default is None or not walker_uses:
+        raise AnalysisError("django.template.base.Node: child_nodelists default / get_nodes_by_type walk not found")
+    n = 0
+    for m in proj.modules.values():
+        for cls in [c for c in ast.walk(m.tree) if isinstance(c, ast.ClassDef)]:
+            bases = {last_attr(b) for b in cls.bases}
+            if not (bases & {"Node", "BaseNode"}):
+                continue
+            n += 1
+            own = [st for st in cls.body if isinstance(st, (ast.Assign, ast.AnnAssign)) and norm(st.targets[0] if isinstance(st, ast.Assign) else st.target) == "child_nodelists"]
+            keeps_body = any(isinstance(x, ast.Attribute) and isinstance(x.ctx, ast.Store) and x.attr == "nodelist" and norm(x.value) == "self" for x in ast.walk(cls)) or "BaseNode" in bases or cls.name == "BaseNode"
+            key = f"{m.name.replace('django_components.', '')}:{cls.name}:child-nodelists"
+            if not own:
+                chk.holds("S11", key, m.loc(cls), f"inherits child_nodelists (Django's default {tuple(default)})", nontrivial=False)
+                continue
+            v = own[0].value
+            vals = [e.value for e in v.elts if isinstance(e, ast.Constant)] if isinstance(v, (ast.Tuple, ast.List)) else None
+            ok = vals is not None and (not keeps_body or "nodelist" in vals)
+            chk.ob("S11", key, m.loc(own[0]), ok if vals is not None else None,
+                   f"child_nodelists = {vals} names the body" if ok else
+                   f"`{short(own[0])}` hides the tag's body from Node.get_nodes_by_type: a {{% block %}} written inside a component / fill / slot / provide body of a PARENT template is no longer registered by ExtendsNode, so `{{{{ block.super }}}}` in a child's override renders empty")
+    chk.floor("S11", n, 6)
 
 
 def s9(chk: Check, proj: Project) -> None:
